@@ -28,7 +28,8 @@ Step(sch, allowIds, m, e) ==
         acc1 == m.acc \o TagsOf(e, OpenIds(m.open))
         m1 == [m EXCEPT !.dest = dest1, !.open = open1, !.acc = acc1]
     IN
-    IF AnyKnown(open1) THEN
+    IF e.k = "flush" /\ "st" \in DOMAIN e /\ e.st.open # <<>> THEN Fail(m, "C10: flush() returned successfully with masters still open")
+    ELSE IF AnyKnown(open1) THEN
       (IF e.dest_tail # <<>> THEN Fail(m, "C10: bytes were handed over while a known-size master is open") ELSE m1)
     ELSE IF e.k \in {"elem", "rawtag", "write_raw", "full", "end", "flush", "into_inner"} THEN
       \* read to its end, the destination yields the tags written so far; the End of an unknown-size master has no
